@@ -466,3 +466,92 @@ Proof.
     specialize (IH y L). destruct (map2o bce x y), (map2o bce y x); try reflexivity; try discriminate.
     inversion IH; subst. reflexivity.
 Qed.
+
+(* ---------------------------------------------------------------- a static result is never vacuous *)
+(* whenever broadcasting does not raise, conforming runtime shapes that do broadcast exist (so "raises" is exact) *)
+Definition wit_a (x y : dim) : N :=
+  match x with DC a => Z.to_N a | _ => match y with DC b => Z.to_N b | _ => 1%N end end.
+Definition wit_b (x y : dim) : N := wit_a y x.
+
+Lemma bce_witness x y d : bce x y = Some d -> wf_dim x = true -> wf_dim y = true ->
+  conf (wit_a x y) x /\ conf (wit_b x y) y /\ exists c, npb (wit_a x y) (wit_b x y) = Some c.
+Proof.
+  unfold bce, npb, wit_b, wit_a. intros H Hx Hy.
+  destruct x as [a|s|], y as [b|t|]; simpl in *; try apply Z.leb_le in Hx; try apply Z.leb_le in Hy;
+    repeat match type of H with context[if ?c then _ else _] => destruct c eqn:? end; try discriminate;
+    (split; [try exact I; lia|split; [try exact I; lia|]]); zb; try (eexists; reflexivity); try lia.
+Qed.
+
+Fixpoint wits (x y : list dim) : list N * list N :=
+  match x, y with
+  | a :: x', b :: y' => let '(l, r) := wits x' y' in (wit_a a b :: l, wit_b a b :: r)
+  | _, _ => ([], [])
+  end.
+
+Lemma wits_ok : forall x y r, List.length x = List.length y -> forallb wf_dim x = true -> forallb wf_dim y = true ->
+  map2o bce x y = Some r ->
+  Forall2 conf (fst (wits x y)) x /\ Forall2 conf (snd (wits x y)) y /\
+  exists cs, map2o npb (fst (wits x y)) (snd (wits x y)) = Some cs.
+Proof.
+  induction x as [|a x IH]; destruct y as [|b y]; simpl; intros r Hl Hx Hy H; try discriminate.
+  - split; [constructor|]. split; [constructor|]. eexists; reflexivity.
+  - apply andb_prop in Hx. apply andb_prop in Hy. destruct Hx as [Ha Hx], Hy as [Hb Hy]. injection Hl as Hl.
+    destruct (bce a b) as [d|] eqn:Ed; [|discriminate].
+    destruct (map2o bce x y) as [r'|] eqn:Er; [|discriminate].
+    destruct (IH y r' Hl Hx Hy Er) as [I1 [I2 [cs Ic]]].
+    destruct (bce_witness a b d Ed Ha Hb) as [W1 [W2 [c Wc]]].
+    destruct (wits x y) as [l rr]. cbn [fst snd] in *.
+    split; [constructor; assumption|]. split; [constructor; assumption|].
+    simpl. rewrite Wc, Ic. eexists; reflexivity.
+Qed.
+
+Lemma conf_ones : forall k l, Forall2 conf l (repeat (DC 1) k) -> l = repeat 1%N k.
+Proof.
+  induction k as [|k IH]; simpl; intros l H; inversion H; subst; [reflexivity|].
+  simpl in *. f_equal; [lia|apply IH; assumption].
+Qed.
+
+Lemma forallb_wf_pad k x : forallb wf_dim x = true -> forallb wf_dim (repeat (DC 1) k ++ x) = true.
+Proof. intros H. induction k; simpl; assumption. Qed.
+
+Lemma padded_witness x y r : (List.length x <= List.length y)%nat ->
+  forallb wf_dim x = true -> forallb wf_dim y = true ->
+  map2o bce (repeat (DC 1) (List.length y - List.length x) ++ x) y = Some r ->
+  exists sa sb sc, Forall2 conf sa x /\ Forall2 conf sb y /\ np_broadcast sa sb = Some sc.
+Proof.
+  intros Hl Hx Hy H. set (k := (List.length y - List.length x)%nat) in *.
+  assert (L : List.length (repeat (DC 1) k ++ x) = List.length y) by (rewrite app_length, repeat_length; lia).
+  destruct (wits_ok _ y r L (forallb_wf_pad k x Hx) Hy H) as [W1 [W2 [cs Wc]]].
+  destruct (wits (repeat (DC 1) k ++ x) y) as [wa wb]. cbn [fst snd] in *.
+  apply Forall2_app_inv_r in W1. destruct W1 as [l1 [sa [F1 [F2 E]]]]. apply conf_ones in F1. subst.
+  exists sa, wb, cs. split; [exact F2|]. split; [exact W2|].
+  pose proof (Forall2_length' _ _ _ F2) as La. pose proof (Forall2_length' _ _ _ W2) as Lb.
+  rewrite np_broadcast_pad by lia. rewrite La, Lb. exact Wc.
+Qed.
+
+Theorem broadcast_accepts_only_if_possible x y r :
+  forallb wf_dim x = true -> forallb wf_dim y = true -> broadcast (Some x) (Some y) = BShape (Some r) ->
+  exists sa sb sc, Forall2 conf sa x /\ Forall2 conf sb y /\ np_broadcast sa sb = Some sc.
+Proof.
+  intros Hx Hy. simpl. unfold align. destruct (Nat.ltb (List.length y) (List.length x)) eqn:E; intros H.
+  - apply Nat.ltb_lt in E.
+    destruct (map2o bce (repeat (DC 1) (List.length x - List.length y) ++ y) x) as [r'|] eqn:Er; [|discriminate].
+    destruct (padded_witness y x r' (Nat.lt_le_incl _ _ E) Hy Hx Er) as [sb [sa [sc [F1 [F2 N]]]]].
+    exists sa, sb, sc. split; [exact F2|]. split; [exact F1|]. rewrite np_broadcast_comm. exact N.
+  - apply Nat.ltb_ge in E.
+    destruct (map2o bce (repeat (DC 1) (List.length y - List.length x) ++ x) y) as [r'|] eqn:Er; [|discriminate].
+    exact (padded_witness x y r' E Hx Hy Er).
+Qed.
+
+(* ShapeError exactly when no conforming runtime shapes broadcast (ranks known, constants naturals) *)
+Theorem broadcast_raises_iff_impossible x y : forallb wf_dim x = true -> forallb wf_dim y = true ->
+  (broadcast (Some x) (Some y) = BRaise <->
+   forall sa sb, Forall2 conf sa x -> Forall2 conf sb y -> np_broadcast sa sb = None).
+Proof.
+  intros Hx Hy. split.
+  - intros H sa sb Ha Hb. exact (broadcast_complete (Some x) (Some y) H sa sb Ha Hb).
+  - intros H. destruct (broadcast (Some x) (Some y)) as [[r|]|] eqn:E; [| |reflexivity].
+    + destruct (broadcast_accepts_only_if_possible x y r Hx Hy E) as [sa [sb [sc [F1 [F2 N]]]]].
+      rewrite (H sa sb F1 F2) in N. discriminate.
+    + apply broadcast_unknown_rank in E. destruct E; discriminate.
+Qed.
